@@ -43,6 +43,10 @@ pub struct KaCase {
     pub pong: Pong,
     /// the transport answers a Close (graceful) or stays silent after the timeout
     pub silent_transport: bool,
+    /// the peer sends keepalive Pings of its own every so many ms (0 = none), whether or not it answers ours: only Pongs
+    /// prove that our pings get through
+    #[serde(default)]
+    pub peer_ping_every: u64,
 }
 
 struct Rec {
@@ -155,6 +159,19 @@ pub fn run_ka(c: &KaCase) -> KaResult {
         let rec = Arc::new(Mutex::new(Rec { pings: vec![], pongs_scheduled: vec![], closed_at: None }));
         let (tx, rx) = mpsc::unbounded_channel();
         let ws = ClockWs { start, rec: rec.clone(), rx, tx, pong: c.pong.clone(), nping: 0, silent: c.silent_transport, ended: false };
+        if c.peer_ping_every > 0 {
+            // the peer's own pings, 3 ms off the 10 ms grid so that they coincide neither with a tick nor with a pong
+            let (txp, every) = (ws.tx.clone(), c.peer_ping_every);
+            tokio::spawn(async move {
+                tokio::time::sleep(Duration::from_millis(3)).await;
+                loop {
+                    if txp.send(Message::Ping).is_err() {
+                        return;
+                    }
+                    tokio::time::sleep(Duration::from_millis(every)).await;
+                }
+            });
+        }
         let rng = rand::rngs::SmallRng::seed_from_u64(7);
         let (mux, taskdata) = Multiplexor::new_detailed::<_, TI>(ws, opts, rng);
         let mux = Arc::new(mux);
@@ -291,6 +308,9 @@ pub fn check_ka(c: &KaCase) -> Outcome {
     if c.silent_transport {
         classes.push("silent-transport");
     }
+    if c.peer_ping_every > 0 {
+        classes.push("peer-sends-pings-too");
+    }
     Outcome::pass(answered_before_silence || non_multiple, classes)
 }
 
@@ -314,13 +334,14 @@ fn ka_case() -> impl Strategy<Value = KaCase> {
                 2 => Just(Pong::Never),
                 2 => (lim + 1..lim * 3 + 2).prop_map(Pong::Const),
             ];
-            (Just(i), Just(t), pong, any::<bool>()).prop_map(|(interval, timeout, pong, silent_transport)| KaCase { interval, timeout, pong, silent_transport })
+            let peer = prop_oneof![4 => Just(0u64), 1 => Just((i / 20).max(1) * 10), 1 => Just(i.max(10)), 1 => Just(250u64)];
+            (Just(i), Just(t), pong, any::<bool>(), peer).prop_map(|(interval, timeout, pong, silent_transport, peer_ping_every)| KaCase { interval, timeout, pong, silent_transport, peer_ping_every })
         })
     })
 }
 
 pub fn c16(ctx: &Ctx, rep: &mut Report) {
-    rep.rule = "(I, T) pairs in ms incl. T < I (clamped by the options API, applied in the client's order), T = I, T a multiple / not a multiple of I, either or both disabled; pong policies: constant delay (<= T and late > T), per-ping delays < min(I,T), answered for k rounds then silent, never; \
+    rep.rule = "(I, T) pairs in ms incl. T < I (clamped by the options API, applied in the client's order), T = I, T a multiple / not a multiple of I, either or both disabled; pong policies: constant delay (<= T and late > T), per-ping delays < min(I,T), answered for k rounds then silent, never; in 3 of 7 cases the peer also sends Pings of its own (every I/2, I or 250 ms) whether or not it answers; \
                 transport answering the final Close or staying silent; horizon 20 intervals + T on tokio's paused clock (exact virtual time). Oracle: a ping exactly every I while alive; a KeepaliveTimeout at tau satisfies T <= tau - last pong <= T+I; a connection that survived has no pong-free gap longer than T+I; \
                 peers answering every ping within the bound never time out; disabled values send no ping / never time out; after the end the task future completes and pending get_datagram/accept calls fail with Closed. \
                 Non-trivial = at least one pong arrived before the silence began, or T is not a multiple of I. Distinct = distinct case value."
